@@ -298,6 +298,34 @@ static void map_histories(vh_rng* r) {
       }
       del(c);
     }
+    /* near misses: a map against one with one binding more, one fewer, one value changed, an empty one -- in both
+       operand orders and against the other kind of map.  Whenever eq holds, the hashes (and lengths) agree. */
+    {
+      var more = copy(m[0]), fewer = copy(m[0]), changed = copy(m[0]);
+      var empty = is_tree ? (var)new(Tree, Int, Int) : (var)new(Table, Int, Int);
+      var other = is_tree ? (var)new(Table, Int, Int) : (var)new(Tree, Int, Int);     /* the other kind, one binding more */
+      set(more, $I(777777), $I(3));
+      for (int i = 0; i < n; i++) { set(other, $I(k[i]), $I(v[i])); }
+      set(other, $I(888888), $I(4));
+      if (n > 0) { rem(fewer, $I(k[n / 2])); set(changed, $I(k[n / 2]), $I(v[n / 2] + 1)); }
+      var near[5] = { more, fewer, changed, empty, other };
+      static const char* NN[5] = { "one binding more", "one binding fewer", "one value changed", "an empty map", "the other kind of map with one binding more" };
+      for (int q = 0; q < 5; q++) {
+        if ((q == 1 || q == 2) && n == 0) { continue; }
+        if (q == 3 && n == 0) { continue; }
+        for (int dir = 0; dir < 2; dir++) {
+          var x = dir ? near[q] : m[0], y = dir ? m[0] : near[q];
+          vh_evals(2);
+          bool e = eq(x, y);
+          if (e) {
+            vh_count("near_miss_map_pairs_found_eq");
+            if (hash(x) != hash(y) || len(x) != len(y)) { vh_violation(K(dom, "eq-but-different-hash"), "eq(%s, %s) holds but hashes or lengths differ for a %s of %d bindings", dir ? NN[q] : "the map", dir ? "the map" : NN[q], dom, n); }
+          }
+          vh_count("near_miss_map_pairs");
+        }
+      }
+      del(more); del(fewer); del(changed); del(empty); del(other);
+    }
     { int64_t kk = 424242; var o = is_tree ? (var)new(Tree, Int, Int) : (var)new(Table, Int, Int); set(o, $I(kk), $I(1)); swap_check(dom, m[0], o, dom); }
     vh_count("map_history_groups");
   }
